@@ -81,8 +81,7 @@ view == <<built, last, steps>>
 -----------------------------------------------------------------------------
 \* the deviations of the code the model reproduces
 KF_UnhashedContent == \E f \in Unhashed : last.before[f] # last.req[f]
-KF_MetaIgnored == last.before.Metadata # last.req.Metadata \/ last.before.TenantID # last.req.TenantID
-                  \/ ToSet(last.before.RawConfig) \ ToSet(last.req.RawConfig) # {}
+KF_MetaIgnored == ~(ToSet(last.req.Metadata) \subseteq ToSet(last.before.Metadata))
 
 \* skip or metadata patch only when the index has the request's content and branches
 SkipSound ==
@@ -90,12 +89,13 @@ SkipSound ==
      /\ built.Branches = last.req.Branches
      /\ ContentEq(built, last.req) \/ (~Strict /\ KF_UnhashedContent)
 
-\* after skip / metadata patch the metadata is the request's
+\* after skip / metadata patch the metadata is the request's.  RawConfig and Metadata are maps
+\* a request may describe partially: every pair of the request must be in the index.
 MetaApplied ==
   last.state \in {"equal", "meta-mismatch"} =>
      /\ \A f \in MutableFields \ {"RawConfig"} : built[f] = last.req[f]
      /\ RawPairs(last.req) \subseteq ToSet(built.RawConfig)
-     /\ (ToSet(built.RawConfig) = ToSet(last.req.RawConfig) /\ built.Metadata = last.req.Metadata) \/ (~Strict /\ KF_MetaIgnored)
+     /\ ToSet(last.req.Metadata) \subseteq ToSet(built.Metadata) \/ (~Strict /\ KF_MetaIgnored)
 
 \* metadata-only changes do not cause a re-index
 NoNeedlessReindex ==
